@@ -121,3 +121,10 @@ TEXTS["C02"] = {
     "level_note": "Trusts the TRY/ACK protocol on the child's stdout, the verif crash points (which SIGKILL the process without running deferred code) and the reference aggregator with the pinned 2n-1 array rule. The child closes only a caught-up database because DB.Close can block while entries are still being handed to the row store (recorded in DESIGN.md as outside the listed properties).",
     "technique": "fault injection driven by property-based generation (rapid): generated insert/flush scripts x enumerated crash points / random SIGKILLs in a child process, reference-model oracle after restart",
 }
+
+TEXTS["C12"] = {
+    "level_text": "Fault enumeration by generated fault sequences: histories interleaving inserts through 1-2 leaders with follower stops/starts/restarts, restarts from a stale directory image, leader restarts, link cuts and restores, and slow followers (bounded number of faults per history) on an in-process cluster with real WAL replication; after healing, per-partition exactly-once accounting against a standalone database, equality of redundant followers and leader-query equivalence decide the case. Fault kinds and their combinations with later inserts are counted in the evidence labels. It does not enumerate every position of a fault inside the leader's dispatch pipeline (positions are sampled by the history), and the gRPC transport is replaced by harness links.",
+    "design_ref": "DESIGN.md section 4 C12",
+    "level_note": "Trusts the harness link (re-follow from the last delivered offset, one outstanding Follow call per leader at a time, stale incarnations answer with an error), the cluster quiescence criterion built on the leader/follower progress hooks, and the standalone database as oracle (C01's subject).",
+    "technique": "stateful property-based testing (rapid) with injected faults (restarts, stale directory images, link cuts, leader restarts), differential + accounting oracle against a standalone database",
+}
